@@ -2,6 +2,8 @@ pub mod converter;
 
 mod fn_params;
 
+pub use fn_params::fix_fn_param_idents;
+
 use std::ops::Deref;
 
 #[derive(Clone, Copy)]
